@@ -158,7 +158,7 @@ impl Prop for C01 {
         "C01"
     }
     fn cases(&self) -> (u64, u64) {
-        (60_000, 3_000_000)
+        (250_000, 3_000_000)
     }
     fn rule(&self) -> &'static str {
         "choice bytes -> conventional definition (<=8 named fields/level of every kind and arity, \
